@@ -82,7 +82,7 @@ fn with_context(mut v: Vec<Op>) -> Vec<Op> {
 pub fn c01_ops() -> Vec<Op> {
     let mut v = vec![];
     for f in fmts::all() {
-        for x in small_values() {
+        for x in small_values().into_iter().step_by(2) {
             if !c01::features(&f, &x).is_empty() {
                 continue;
             }
@@ -94,9 +94,7 @@ pub fn c01_ops() -> Vec<Op> {
 
 fn lexical_small(f: &F) -> Vec<LN> {
     let mut v: Vec<LN> = lexu::reps(f).into_iter().step_by(3).map(LN::Term).collect();
-    let sents = lexu::u_sent(f);
-    let step = (sents.len() / 12).max(1);
-    v.extend(sents.into_iter().step_by(step));
+    v.extend(lexu::few_sentences(f));
     v
 }
 
@@ -136,7 +134,7 @@ pub fn c02_ops() -> Vec<Op> {
 pub fn c03_ops() -> Vec<Op> {
     let mut v = vec![];
     for f in fmts::all() {
-        for x in small_values() {
+        for x in small_values().into_iter().skip(1).step_by(2) {
             if !c01::features(&f, &x).is_empty() {
                 continue;
             }
@@ -154,14 +152,38 @@ pub fn c03_ops() -> Vec<Op> {
 pub fn c05_ops() -> Vec<Op> {
     let mut v = vec![];
     for f in fmts::all() {
-        for (n, s) in c08::history_inputs(&f).into_iter().step_by(3) {
+        for (n, s) in c08::history_inputs(&f).into_iter().step_by(5) {
             let s2 = s.clone();
             v.push(verdict(format!("lexical parse returns[{}] {n}: {s:?}", f.name), move || c05::case_parse(&f, "parse", &s)));
             v.push(verdict(format!("lexical parse_term returns[{}] {n}: {s2:?}", f.name), move || c05::case_parse(&f, "parse_term", &s2)));
         }
     }
-    let hv = c05::hostile_values(false);
-    let step = (hv.len() / 20).max(1);
+    // a dozen hand-built hostile values (the hostile universe is the main sweep's business and far too
+    // large to rebuild in every baseline process)
+    let hv: Vec<LN> = {
+        use narsese::lexical::{Sentence as LS, Task as LT, Term as LTerm};
+        let atom = |p: &str, n: &str| LTerm::Atom { prefix: p.to_string(), name: n.to_string() };
+        let comp = |c: &str, ts: Vec<LTerm>| LTerm::Compound { connecter: c.to_string(), terms: ts };
+        let a = atom("", "a");
+        let sent = |t: LTerm, stamp: &str, truth: Vec<&str>| LS { term: t, punctuation: ".".to_string(), stamp: stamp.to_string(), truth: truth.into_iter().map(String::from).collect() };
+        vec![
+            LN::Term(atom("??", "a")),
+            LN::Term(atom("$", "")),
+            LN::Term(atom("+", "abc")),
+            LN::Term(comp("??", vec![a.clone()])),
+            LN::Term(comp("/", vec![a.clone(), a.clone()])),
+            LN::Term(comp("/", vec![atom("_", ""), a.clone(), atom("_", "")])),
+            LN::Term(comp("--", vec![a.clone(), a.clone(), a.clone()])),
+            LN::Term(comp("-", vec![a.clone()])),
+            LN::Term(comp("&&", vec![])),
+            LN::Term(LTerm::Statement { copula: "?!".to_string(), subject: Box::new(a.clone()), predicate: Box::new(a.clone()) }),
+            LN::Term(LTerm::Set { left_bracket: "{".to_string(), terms: vec![comp("/", vec![a.clone()])], right_bracket: "]".to_string() }),
+            LN::Sentence(sent(a.clone(), ":!x:", vec!["abc"])),
+            LN::Sentence(sent(a.clone(), ":|:", vec!["0.5", "NaN", "1"])),
+            LN::Task(LT { budget: vec!["0.5".into(), "0.5".into(), "1.5".into(), "0.5".into()], sentence: sent(a.clone(), "", vec![]) }),
+        ]
+    };
+    let step = 1;
     for x in hv.into_iter().step_by(step) {
         for f in fmts::all() {
             let x = x.clone();
@@ -182,7 +204,7 @@ fn mirrored(r: &R) -> R {
 }
 
 pub fn c06_ops() -> Vec<Op> {
-    let ts = small_terms();
+    let ts: Vec<R> = small_terms().into_iter().filter(|r| !r.kids.is_empty() || r.tag == Tag::Interval).collect();
     let mut v = vec![];
     for (i, r) in ts.iter().enumerate() {
         let (r1, m1) = (r.clone(), mirrored(r));
@@ -213,7 +235,7 @@ pub fn c06_ops() -> Vec<Op> {
 /// value ops: the hashes of a term under fixed hashers (compared with the first evaluation in this process)
 pub fn c07_ops() -> Vec<Op> {
     let mut v = vec![];
-    for r in small_terms() {
+    for r in small_terms().into_iter().filter(|r| !r.kids.is_empty() || r.tag == Tag::Interval || r.name == "5") {
         let m = mirrored(&r);
         let r1 = r.clone();
         v.push(Op::new(format!("hashes of {}", r.show()), move || format!("{:x?}", c07::hashes(&r1.build()))));
@@ -317,7 +339,7 @@ pub fn c11_ops() -> Vec<Op> {
 pub fn c12_ops() -> Vec<Op> {
     let mut v = vec![];
     for f in fmts::all() {
-        for (n, s) in c08::history_inputs(&f).into_iter().step_by(3) {
+        for (n, s) in c08::history_inputs(&f).into_iter().step_by(5) {
             let (s1, s2) = (s.clone(), s.clone());
             v.push(verdict(format!("well-formed result[{}] enum parse {n}: {s:?}", f.name), move || c12::case_parse(&f, &s1)));
             v.push(verdict(format!("well-formed result[{}] lexical parse + fold {n}", f.name), move || c12::case_text_fold(&f, &s2)));
@@ -332,7 +354,7 @@ pub fn c13_ops() -> Vec<Op> {
     for &x in &fl {
         v.push(verdict(format!("evidence-number API on {x:?}"), move || c13::check_number(x)));
     }
-    let pick = [0.0, -0.0, 5e-324, 0.5, 1.0, 1.0000000000000002, -5e-324, f64::NAN, 2.0];
+    let pick = [0.0, -0.0, 0.5, 1.0, 1.0000000000000002, -5e-324, f64::NAN];
     for &a in &pick {
         v.push(verdict(format!("truth / budget constructors on [{a:?}]"), move || c13::check_truth(&[a]).and_then(|_| c13::check_budget(&[a]))));
         for &b in &pick {
@@ -340,8 +362,8 @@ pub fn c13_ops() -> Vec<Op> {
         }
     }
     // single root calls: the n-th root of a valid number is valid
-    for &x in &[0.0f64, -0.0, 5e-324, 2.2250738585072014e-308, 1e-300, 0.5, 0.9999999999999999, 1.0] {
-        for n in [0usize, 1, 2, 3, 4, 64] {
+    for &x in &[0.0f64, -0.0, 5e-324, 1e-300, 0.9999999999999999, 1.0] {
+        for n in [0usize, 1, 2, 3, 64] {
             v.push(verdict(format!("root({x:?}, {n}) is valid"), move || {
                 use narsese::api::EvidentNumber;
                 let r = x.root(n);
@@ -359,7 +381,7 @@ pub fn c14_ops() -> Vec<Op> {
         v.push(verdict(format!("components / category / capacity of {}", r.show()), move || c14::case(&r, &[])));
     }
     for f in fmts::all() {
-        for x in lexu::reps(&f) {
+        for x in lexu::reps(&f).into_iter().step_by(3) {
             v.push(verdict(format!("lexical components / category[{}] {x:?}", f.name), move || c14::case_lex(&f, &x)));
         }
     }
